@@ -56,7 +56,8 @@ var subjects4 = map[string]subject{
 	"ipv6only": {&ipv6only.Plugin, []vec{a(false), a(false, "300s"), a(false, "30m"), a(true, "-5s"), a(true, "300s", "x"), a(true, "soon")}},
 	"autoconfigure": {&autoconfigure.Plugin, []vec{a(false), a(false, "0"), a(false, "1"), a(false, "AutoConfigure"), a(false, "DoNotAutoConfigure"), a(true, "2"), a(true, "1", "1"), a(true, "")}},
 	"staticroute": {&staticroute.Plugin, []vec{a(false, "10.0.0.0/8,192.0.2.1"), a(false, "0.0.0.0/0,192.0.2.1", "10.1.2.3/32,192.0.2.2"), a(true), a(true, "2001:db8::/32,2001:db8::1"),
-		a(true, "10.0.0.0/8,2001:db8::1"), a(true, "2001:db8::/32,192.0.2.1"), a(true, "10.0.0.0/8"), a(true, "10.0.0.0/33,192.0.2.1"), a(true, "10.0.0.0/8,192.0.2.1,x")}},
+		a(true, "10.0.0.0/8,2001:db8::1"), a(true, "2001:db8::/32,192.0.2.1"), a(true, "10.0.0.0/8"), a(true, "10.0.0.0/33,192.0.2.1"), a(true, "10.0.0.0/8,192.0.2.1,x"),
+		a(true, "::ffff:10.0.0.0/104,192.0.2.1"), a(false, "10.0.0.0/8,::ffff:192.0.2.1"), a(true, "::ffff:10.1.2.3/128,192.0.2.1")}},
 	"searchdomains": {&searchdomains.Plugin, []vec{a(false, "example.com"), a(false, "example.com", "sub.example.org"), a(false)}},
 	"nbp": {&nbp.Plugin, []vec{a(false, "tftp://192.0.2.5/boot.efi"), a(false, "http://boot.example.com/ipxe?params=x"), a(false, "boot.efi"), a(true), a(true, "a", "b"), a(true, "http://[::1")}},
 	"server_id": {&serverid.Plugin, []vec{a(false, "192.0.2.1"), a(true, "2001:db8::1"), a(true), a(true, "x")}},
@@ -81,7 +82,7 @@ func VerifH_c19_v4() {
 	name := order4[vnd.Pick("plugin", 0, len(order4)-1)]
 	s := subjects4[name]
 	vnd.Assert(s.p.Name == name, "C19 the plugin is registered under its documented name")
-	i := vnd.Pick("vector", 0, 11)
+	i := vnd.Pick("vector", 0, 13)
 	if i >= len(s.vecs) {
 		vnd.Assume(false)
 	}
